@@ -262,7 +262,7 @@ MUTANTS = {
         "check": ["C06", "--tier", "quick", "--only", "gen"],
     },
     "c20_varlib_twin_keeps_path": {
-        "edits": [("Lib/fontTools/varLib/__init__.py", "filename = os.path.basename(vf.filename)", "filename = os.path.basename(vf.filename) if os.path.basename(vf.filename) not in globals().setdefault(\"_seen_vf\", set()) else vf.filename\n                    globals()[\"_seen_vf\"].add(os.path.basename(vf.filename))")],
+        "edits": [("Lib/fontTools/varLib/__init__.py", "                filename = os.path.basename(vf.filename)\n", "                filename = os.path.basename(vf.filename)\n                if any(os.path.basename(p) == filename for p in vf_name_to_output_path.values()):\n                    filename = vf.filename\n")],
         "check": ["C20", "--tier", "quick", "--only", "text"],
     },
 }
